@@ -51,7 +51,8 @@ class Contract:
                  props=(), hooks=None, locals=None, defaults=None, is_property=False,
                  uf_params=None, assumed=False, note="", ghost=None, exc_props=None,
                  stop_ensures=(), bounded=(), globals=None, hints=None, yields_range=None,
-                 recursion_measure=None, result_expr=None, sets=None, closure=None):
+                 recursion_measure=None, result_expr=None, sets=None, closure=None,
+                 implicit_guards=()):
         self.name = name
         self.short = name.split(".")[-1]
         self.params = OrderedDict(params)     # name -> type descriptor
@@ -92,6 +93,8 @@ class Contract:
         # constructor-style effect: field := expression over the arguments (exact, no havoc)
         self.sets = dict(sets or {})
         self.closure = dict(closure or {})     # closure cell -> type (mutable state of a nested def)
+        # total=False only: implicit exceptions (by obligation label) that end the path like a guard
+        self.implicit_guards = tuple(implicit_guards)
 
     def default_value(self, nm, engine):
         from .engine import State
